@@ -81,7 +81,9 @@ theorem rail_owner_unique {s : Sys π ν} (hw : WFr s) {o o' e : String} (he : e
 theorem wfr_replace {s s' : Sys π ν} (hs : Sane s) (hw : WFr s) {t : Nat} {old c : π} {x r' : String}
     (hold : (t, old) ∈ s.comps) (hx : nameOfC old = x)
     (hcomps : s'.comps = s.comps.map (fun p => if p.1 = t then (t, c) else p))
-    (hedges : s'.edges = s.edges) (hpn : s'.pnames = s.pnames)
+    (hedges : s'.edges = s.edges)
+    (hpn : s'.pnames = s.pnames.map fun (kp : Nat × List String) =>
+        (kp.1, kp.2.map fun p => if s.refersTo t p then nameOfC c else p))
     (hnodes : s'.nodes = ddel s.nodes x ++ [(nameOfC c, t)])
     (hpc : dkeys s'.phaseConf = dkeys (ddel s.phaseConf x) ++ [nameOfC c])
     (hgr : dkeys s'.groups = dkeys (ddel s.groups x) ++ [nameOfC c])
@@ -91,9 +93,8 @@ theorem wfr_replace {s s' : Sys π ν} (hs : Sane s) (hw : WFr s) {t : Nat} {old
     (hsrc : kindOfC c = .source ↔ s.preds t = [])
     (hmul : 1 < (s.preds t).length → kindOfC c = .pmux)
     (hmux : kindOfC c = .pmux → ∀ p ∈ s.comps, p.1 ≠ t → kindOfC p.2 ≠ .pmux)
-    (hkids : ∀ k ∈ s.succs t, ∀ kc, s.payload? k = some kc → (kindOfC c).acceptsChild (kindOfC kc).ctype = true)
-    (hf18 : ∀ m ∈ s.ids, ∀ e ∈ s.consulted m, s.getIndex e = .ok (some t) →
-        (e = x → nameOfC c = x) ∧ (e ≠ x → r' = e)) : WFr s' := by
+    (hkids : ∀ k ∈ s.succs t, ∀ kc, s.payload? k = some kc → (kindOfC c).acceptsChild (kindOfC kc).ctype = true) :
+    WFr s' := by
   have hxget : dget s.nodes x = some t := hx ▸ hw.nodes_get (t, old) hold
   have hxkey : x ∈ dkeys s.nodes := dget_some_key hxget
   -- membership in the new component list
@@ -194,51 +195,28 @@ theorem wfr_replace {s s' : Sys π ν} (hs : Sane s) (hw : WFr s) {t : Nat} {old
       · rcases resolve_some he with h3 | ⟨_, _, o, h4, _⟩
         · exact h1 (dget_some_key h3)
         · exact h2 (mem_dvals.mpr ⟨o, List.mem_of_find?_eq_some h4⟩)
-  -- recorded inputs that resolve to `t` keep doing so (SafeF18)
-  have hstab_t : ∀ m ∈ s.ids, ∀ e ∈ s.consulted m, s.getIndex e = .ok (some t) → s'.getIndex e = .ok (some t) := by
-    intro m hm e he het
-    obtain ⟨f1, f2⟩ := hf18 m hm e he het
-    rw [getIndex_eq_resolve] at het ⊢
-    rw [hnodes, hrails]
-    by_cases hex : e = x
-    · subst hex
-      rw [f1 rfl] at hcfresh ⊢
-      apply resolve_of_name
-      rw [dget_append_of_not_mem hcfresh]; simp [dget]
-    · have f3 := f2 hex
-      rcases resolve_some het with h3 | ⟨h3, f4, o, h4, h5⟩
-      · obtain ⟨p, hp, hpn, hpt⟩ := nodes_get_live hw h3
-        have := eq_of_mem_same_id hs hp hold hpt
-        subst this
-        exact absurd (hpn.symm.trans hx) hex
-      · have hox : o = x := by
-          obtain ⟨p, hp, hpn, hpt⟩ := nodes_get_live hw h5
-          have := eq_of_mem_same_id hs hp hold hpt
-          subst this
-          exact hpn.symm.trans hx
-        subst hox
-        have hoe : (o, e) ∈ s.rails := List.mem_of_find?_eq_some h4
-        have hev : e ∈ dvals s.rails := mem_dvals.mpr ⟨o, hoe⟩
-        have hne : e ≠ nameOfC c := by
-          rcases hname with h | ⟨_, h⟩
-          · rw [h]; exact hex
-          · intro e'; exact h (e' ▸ hev)
-        apply resolve_of_rail (o := nameOfC c) _ f4
-        rotate_left
-        · rw [dget_append_of_not_mem hcfresh]; simp [dget]
-        · rw [dget_append_of_not_mem (fun h => (dget_eq_none_iff.mp h3) (mem_dkeys_ddel.mp h).1)]
-          have : ¬ nameOfC c = e := fun e' => hne e'.symm
-          simp [dget, this]
-        · rw [List.find?_append]
-          have : (ddel s.rails o).find? (fun p => decide (p.2 = e)) = none := by
-            apply List.find?_eq_none.mpr
-            intro p hp
-            simp only [decide_eq_true_eq]
-            intro hpe
-            obtain ⟨hp1, hp2⟩ := mem_ddel.mp hp
-            have : (p.1, e) ∈ s.rails := by rw [← hpe]; exact hp1
-            exact hp2 (rail_owner_unique hw f4 this hoe)
-          simp [this, f3]
+  -- the new name resolves to `t`
+  have hnew : s'.getIndex (nameOfC c) = .ok (some t) := by
+    rw [getIndex_eq_resolve, hnodes]
+    apply resolve_of_name
+    rw [dget_append_of_not_mem hcfresh]; simp [dget]
+  have hrefers : ∀ e, s.refersTo t e = true ↔ s.getIndex e = .ok (some t) := by
+    intro e
+    unfold Sys.refersTo
+    cases hg : s.getIndex e with
+    | error _ => simp
+    | ok r => cases r <;> simp
+  have hdgetpn : ∀ n, dget s'.pnames n = (dget s.pnames n).map
+      (List.map fun p => if s.refersTo t p then nameOfC c else p) := by
+    intro n
+    rw [hpn]
+    generalize s.pnames = d
+    induction d with
+    | nil => rfl
+    | cons kp rest ih =>
+      by_cases hk : kp.1 = n
+      · simp [dget, hk]
+      · simp [dget, hk, ih]
   constructor
   · -- names_nodup
     unfold Sys.names
@@ -378,11 +356,11 @@ theorem wfr_replace {s s' : Sys π ν} (hs : Sane s) (hw : WFr s) {t : Nat} {old
     intro p' hp' hm
     rw [hpreds] at hm ⊢
     have key : ∀ p ∈ s.comps, 1 < (s.preds p.1).length →
-        ∃ l, s'.parentsOf p.1 = .ok l ∧ ∀ y ∈ l, ∃ q ∈ s.preds p.1, y = some q := by
+        ∃ l, s'.parentsOf p.1 = .ok l ∧ (∀ y ∈ l, ∃ q ∈ s.preds p.1, y = some q) ∧ l.Nodup := by
       intro p hp hm
-      obtain ⟨l, hl, hl'⟩ := hw.inputs p hp hm
-      refine ⟨l, ?_, hl'⟩
-      apply parentsOf_congr (hpreds _) (by rw [hpn]) hl
+      obtain ⟨l, hl, hl', hlnd⟩ := hw.inputs p hp hm
+      refine ⟨l, ?_, hl', hlnd⟩
+      apply parentsOf_map (fun p => if s.refersTo t p then nameOfC c else p) (hpreds _) (hdgetpn _) hl
       intro e he r hr
       obtain ⟨r', hr', hx'⟩ := (parentsOf_multi hm hl).2 e he
       rw [getIndex_eq_resolve, hr] at hx'
@@ -391,16 +369,45 @@ theorem wfr_replace {s s' : Sys π ν} (hs : Sane s) (hw : WFr s) {t : Nat} {old
       obtain ⟨q, _, rfl⟩ := hl' r hr'
       rw [← getIndex_eq_resolve] at hr ⊢
       by_cases hq : q = t
-      · subst hq; exact hstab_t p.1 (mem_ids_of_mem hp) e he hr
-      · exact hstab e q hr hq
+      · rw [hq] at hr
+        simp only [(hrefers e).mpr hr, if_true]
+        rw [hq]; exact hnew
+      · have hfalse : s.refersTo t e = false := by
+          cases h : s.refersTo t e with
+          | false => rfl
+          | true =>
+            have := (hrefers e).mp h
+            rw [hr] at this
+            simp only [Except.ok.injEq, Option.some.injEq] at this
+            exact absurd this hq
+        simp only [hfalse]
+        exact hstab e q hr hq
     rcases (hmem p').mp hp' with ⟨h1, _⟩ | rfl
     · exact key p' h1 hm
     · exact key (t, old) hold hm
 
 /-! ### change_comp -/
 
-theorem wfr_changeComp {s : Sys π ν} (hs : Sane s) (hw : WFr s) (x : String) (c : π) (g r : String)
-    (hsafe : s.SafeChange x c r) : WFr (s.changeComp x c g r).1 := by
+theorem kidsScan_none {s : Sys π ν} {c : π} {l : List Nat} (h : s.kidsScan c l = none) :
+    ∀ k ∈ l, ∀ kc, s.payload? k = some kc → (kindOfC c).acceptsChild (kindOfC kc).ctype = true := by
+  induction l with
+  | nil => simp
+  | cons k ks ih =>
+    unfold Sys.kidsScan at h
+    split at h
+    · simp at h
+    · next kc hkc =>
+      split at h
+      · simp at h
+      · next hacc =>
+        intro k' hk' kc' hkc'
+        rcases List.mem_cons.mp hk' with rfl | hk'
+        · rw [hkc] at hkc'; simp only [Option.some.injEq] at hkc'; subst hkc'
+          simpa using hacc
+        · exact ih h k' hk' kc' hkc'
+
+theorem wfr_changeComp {s : Sys π ν} (hs : Sane s) (hw : WFr s) (x : String) (c : π) (g r : String) :
+    WFr (s.changeComp x c g r).1 := by
   unfold Sys.changeComp Sys.fail
   simp only
   split
@@ -424,126 +431,173 @@ theorem wfr_changeComp {s : Sys π ν} (hs : Sane s) (hw : WFr s) (x : String) (
             · next hmuxg =>
               split
               · exact hw
-              · split
+              · next hone =>
+                split
                 · exact hw
-                · next pe hpe =>
-                  split
+                · split
                   · exact hw
-                  · next hchk2 =>
-                    -- facts
-                    simp only [Bool.not_eq_true, Bool.not_eq_false', Sys.chkComp, decide_eq_true_eq] at hchk
-                    have hxget : dget s.nodes x = some t := by
-                      unfold Sys.getIndex at ht
-                      obtain ⟨v, hv⟩ := dget_isSome_iff.mpr hchk
-                      simp only [hv, Except.ok.injEq, Option.some.injEq] at ht
-                      rw [hv, ht]
-                    have holdm : (t, old) ∈ s.comps := mem_of_payload? hold
-                    have hxn : nameOfC old = x := by
-                      obtain ⟨p, hp, hpn, hpt⟩ := nodes_get_live hw hxget
-                      have := eq_of_mem_same_id hs hp holdm hpt
-                      subst this; exact hpn
-                    have hk1 : x ∈ dkeys s.phaseConf := (hw.pconf_keys x).mpr (hxn ▸ mem_names_of_mem holdm)
-                    have hk2 : x ∈ dkeys s.groups := (hw.groups_keys x).mpr (hxn ▸ mem_names_of_mem holdm)
-                    have hk3 : x ∈ dkeys s.rails := (hw.rails_keys x).mpr (hxn ▸ mem_names_of_mem holdm)
-                    have hnm : nameOfC c = x ∨ (nameOfC c ∉ dkeys s.nodes ∧ nameOfC c ∉ dvals s.rails ∧
-                        (r = "" ∨ (r ≠ nameOfC c ∧ r ∉ dkeys s.nodes ∧ r ∉ dvals s.rails))) := by
-                      by_cases h : x = nameOfC c
-                      · exact Or.inl h.symm
-                      · right
-                        have : s.chkName (nameOfC c) r = true := by
-                          cases hcn : s.chkName (nameOfC c) r with
-                          | true => rfl
-                          | false => exact absurd ⟨h, by simp [hcn]⟩ hname
-                        exact chkName_spec this
-                    have hcf : ∀ (β : Type) (d : List (String × β)), (∀ y, y ∈ dkeys d → y ∈ dkeys s.nodes) →
-                        nameOfC c ∉ dkeys (ddel d x) := by
-                      intro β d hd
-                      rcases hnm with h | ⟨h, _⟩
-                      · rw [h]; exact not_mem_dkeys_ddel _ _
-                      · intro h'; exact h (hd _ (mem_dkeys_ddel.mp h').1)
-                    have hcf0 := hcf _ s.nodes (fun y hy => hy)
-                    have hcf1 := hcf _ s.phaseConf (fun y hy => (names_eq_nodes_keys hw y).mpr ((hw.pconf_keys y).mp hy))
-                    have hcf2 := hcf _ s.groups (fun y hy => (names_eq_nodes_keys hw y).mpr ((hw.groups_keys y).mp hy))
-                    have hcf3 := hcf _ s.rails (fun y hy => (names_eq_nodes_keys hw y).mpr ((hw.rails_keys y).mp hy))
-                    obtain ⟨l, hl, hl', hlnil⟩ := parentsOf_ok hw holdm
-                    simp only at hl hlnil hl'
-                    rw [hl] at hpe
-                    simp only [Except.ok.injEq] at hpe
-                    subst hpe
-                    -- the new component is a source iff the node is a root
-                    have hsrc : kindOfC c = .source ↔ s.preds t = [] := by
-                      have hr := hw.roots (t, old) holdm
-                      simp only at hr
-                      constructor
-                      · intro hk
-                        apply Decidable.byContradiction
-                        intro hne
-                        have hlne : l ≠ [] := fun e => hne (hlnil.mp e)
-                        cases hlc : l with
-                        | nil => exact hlne hlc
-                        | cons y ys =>
-                          obtain ⟨q, hq, rfl⟩ := hl' y (by simp [hlc])
-                          simp only [hlc] at hchk2
-                          obtain ⟨qc, hqc⟩ := payload?_of_mem_ids (preds_live hs hq).1
-                          simp only [hqc] at hchk2
-                          split at hchk2
-                          · simp at hchk2
-                          · next hacc =>
-                            simp only [Bool.not_eq_true, Bool.not_eq_false'] at hacc
-                            exact accepts_not_source hacc ((ctype_source_iff _).mpr hk)
-                      · intro hp
-                        have hos : kindOfC old = .source := hr.mp hp
-                        apply Decidable.byContradiction
-                        intro hk
-                        exact hsrcg ⟨(ctype_source_iff _).mpr hos, hk⟩
-                    have hmul : 1 < (s.preds t).length → kindOfC c = .pmux := by
-                      intro hm
-                      have := hw.multi (t, old) holdm hm
-                      apply Decidable.byContradiction
-                      intro hk
-                      exact hmuxg ⟨(ctype_pmux_iff _).mpr this, hk⟩
-                    unfold Sys.SafeChange at hsafe
-                    rw [hxget] at hsafe
-                    obtain ⟨s16, s17, s18, s28⟩ := hsafe
-                    -- the registry deletions succeed
-                    rw [if_neg (by simpa [Sys.setPayload] using hk1)]
-                    rw [if_neg (by simpa [Sys.setPayload] using hk2)]
-                    rw [if_neg (by simpa [Sys.setPayload] using hk3)]
-                    simp only
-                    apply wfr_replace hs hw (t := t) (old := old) (c := c) (x := x) (r' := Sys.effRail c r) holdm hxn
-                    · rfl
-                    · rfl
-                    · rfl
-                    · show dset (ddel s.nodes x) (nameOfC c) t = _
-                      rw [dset_of_not_mem hcf0]
-                    · show dkeys (dset (ddel s.phaseConf x) (nameOfC c) _) = _
-                      rw [dset_of_not_mem hcf1]; simp
-                    · show dkeys (dset (ddel s.groups x) (nameOfC c) _) = _
-                      rw [dset_of_not_mem hcf2]; simp
-                    · show dset (ddel s.rails x) (nameOfC c) _ = _
-                      rw [dset_of_not_mem hcf3]
-                    · rcases hnm with h | ⟨h1, h2, _⟩
-                      · exact Or.inl h
-                      · exact Or.inr ⟨h1, h2⟩
-                    · rcases hnm with h | ⟨_, _, h3⟩
-                      · have := s17 h
-                        rcases this with h' | ⟨h1, h2, h3⟩
-                        · exact Or.inl h'
-                        · exact Or.inr ⟨h ▸ h1, h2, h3⟩
-                      · unfold Sys.effRail
+                  · next pe hpe =>
+                    split
+                    · exact hw
+                    · next hchk2 =>
+                      split
+                      · exact hw
+                      · next hkids =>
                         split
-                        · exact Or.inl rfl
-                        · rcases h3 with h3 | ⟨a, b, c'⟩
-                          · exact Or.inl h3
-                          · exact Or.inr ⟨a, b, fun h => c' (mem_dvals_ddel h)⟩
-                    · exact hsrc
-                    · exact hmul
-                    · exact s28
-                    · intro k hk kc hkc
-                      apply s16
-                      unfold Sys.childKinds
-                      exact List.mem_filterMap.mpr ⟨k, hk, by simp [hkc]⟩
-                    · exact s18
+                        · exact hw
+                        · -- facts
+                          simp only [Bool.not_eq_true, Bool.not_eq_false', Sys.chkComp, decide_eq_true_eq] at hchk
+                          have hxget : dget s.nodes x = some t := by
+                            unfold Sys.getIndex at ht
+                            obtain ⟨v, hv⟩ := dget_isSome_iff.mpr hchk
+                            simp only [hv, Except.ok.injEq, Option.some.injEq] at ht
+                            rw [hv, ht]
+                          have holdm : (t, old) ∈ s.comps := mem_of_payload? hold
+                          have hxn : nameOfC old = x := by
+                            obtain ⟨p, hp, hpn, hpt⟩ := nodes_get_live hw hxget
+                            have := eq_of_mem_same_id hs hp holdm hpt
+                            subst this; exact hpn
+                          have hxnames : x ∈ s.names := hxn ▸ mem_names_of_mem holdm
+                          have hk1 : x ∈ dkeys s.phaseConf := (hw.pconf_keys x).mpr hxnames
+                          have hk2 : x ∈ dkeys s.groups := (hw.groups_keys x).mpr hxnames
+                          have hk3 : x ∈ dkeys s.rails := (hw.rails_keys x).mpr hxnames
+                          -- name / rail conditions
+                          have hnm : nameOfC c = x ∨ (nameOfC c ∉ dkeys s.nodes ∧ nameOfC c ∉ dvals s.rails) := by
+                            by_cases h : x = nameOfC c
+                            · exact Or.inl h.symm
+                            · right
+                              simp only [ne_eq, h, not_false_eq_true, if_true] at hname
+                              have : s.chkName (nameOfC c) r = true := by
+                                cases hcn : s.chkName (nameOfC c) r with
+                                | true => rfl
+                                | false => simp [hcn] at hname
+                              exact ⟨(chkName_spec this).1, (chkName_spec this).2.1⟩
+                          have hrl : Sys.effRail c r = "" ∨ (Sys.effRail c r ≠ nameOfC c ∧
+                              Sys.effRail c r ∉ dkeys s.nodes ∧ Sys.effRail c r ∉ dvals (ddel s.rails x)) := by
+                            have hr0 : r = "" ∨ (r ≠ nameOfC c ∧ r ∉ dkeys s.nodes ∧ r ∉ dvals (ddel s.rails x)) := by
+                              by_cases h : x = nameOfC c
+                              · simp only [ne_eq, h, not_true_eq_false, if_false] at hname
+                                by_cases hr : r = ""
+                                · exact Or.inl hr
+                                · right
+                                  simp only [hr, if_false] at hname
+                                  obtain ⟨cur, hcur⟩ := dget_isSome_iff.mpr hk3
+                                  rw [← h, hcur] at hname
+                                  simp only at hname
+                                  by_cases hrc : r = cur
+                                  · -- the component keeps its own rail
+                                    have hmem : (x, r) ∈ s.rails := hrc ▸ dget_some_mem hcur
+                                    have hrn : r ∈ s.railNames :=
+                                      List.mem_filter.mpr ⟨mem_dvals.mpr ⟨x, hmem⟩, by simpa using hr⟩
+                                    refine ⟨?_, ?_, ?_⟩
+                                    · intro e; exact hw.disjoint x hxnames (h ▸ e ▸ hrn)
+                                    · intro hk
+                                      exact hw.disjoint r ((names_eq_nodes_keys hw r).mp hk) hrn
+                                    · intro hv
+                                      obtain ⟨o, ho⟩ := mem_dvals.mp hv
+                                      obtain ⟨ho1, ho2⟩ := mem_ddel.mp ho
+                                      exact ho2 (rail_owner_unique hw hr ho1 hmem)
+                                  · simp only [hrc, if_false] at hname
+                                    split at hname
+                                    · simp at hname
+                                    · next hrx =>
+                                      split at hname
+                                      · simp at hname
+                                      · next hfree =>
+                                        simp only [not_or] at hfree
+                                        exact ⟨h ▸ hrx, hfree.1, fun hv => hfree.2 (mem_dvals_ddel hv)⟩
+                              · simp only [ne_eq, h, not_false_eq_true, if_true] at hname
+                                have : s.chkName (nameOfC c) r = true := by
+                                  cases hcn : s.chkName (nameOfC c) r with
+                                  | true => rfl
+                                  | false => simp [hcn] at hname
+                                rcases (chkName_spec this).2.2 with h3 | ⟨a1, a2, a3⟩
+                                · exact Or.inl h3
+                                · exact Or.inr ⟨a1, a2, fun hv => a3 (mem_dvals_ddel hv)⟩
+                            unfold Sys.effRail
+                            split
+                            · exact Or.inl rfl
+                            · exact hr0
+                          have hcf : ∀ (β : Type) (d : List (String × β)), (∀ y, y ∈ dkeys d → y ∈ dkeys s.nodes) →
+                              nameOfC c ∉ dkeys (ddel d x) := by
+                            intro β d hd
+                            rcases hnm with h | ⟨h, _⟩
+                            · rw [h]; exact not_mem_dkeys_ddel _ _
+                            · intro h'; exact h (hd _ (mem_dkeys_ddel.mp h').1)
+                          have hcf0 := hcf _ s.nodes (fun y hy => hy)
+                          have hcf1 := hcf _ s.phaseConf (fun y hy => (names_eq_nodes_keys hw y).mpr ((hw.pconf_keys y).mp hy))
+                          have hcf2 := hcf _ s.groups (fun y hy => (names_eq_nodes_keys hw y).mpr ((hw.groups_keys y).mp hy))
+                          have hcf3 := hcf _ s.rails (fun y hy => (names_eq_nodes_keys hw y).mpr ((hw.rails_keys y).mp hy))
+                          obtain ⟨l, hl, hl', hlnil⟩ := parentsOf_ok hw holdm
+                          simp only at hl hlnil hl'
+                          rw [hl] at hpe
+                          simp only [Except.ok.injEq] at hpe
+                          subst hpe
+                          -- the new component is a source iff the node is a root
+                          have hsrc : kindOfC c = .source ↔ s.preds t = [] := by
+                            have hr := hw.roots (t, old) holdm
+                            simp only at hr
+                            constructor
+                            · intro hk
+                              apply Decidable.byContradiction
+                              intro hne
+                              have hlne : l ≠ [] := fun e => hne (hlnil.mp e)
+                              cases hlc : l with
+                              | nil => exact hlne hlc
+                              | cons y ys =>
+                                obtain ⟨q, hq, rfl⟩ := hl' y (by simp [hlc])
+                                simp only [hlc] at hchk2
+                                obtain ⟨qc, hqc⟩ := payload?_of_mem_ids (preds_live hs hq).1
+                                simp only [hqc] at hchk2
+                                split at hchk2
+                                · simp at hchk2
+                                · next hacc =>
+                                  simp only [Bool.not_eq_true, Bool.not_eq_false'] at hacc
+                                  exact accepts_not_source hacc ((ctype_source_iff _).mpr hk)
+                            · intro hp
+                              have hos : kindOfC old = .source := hr.mp hp
+                              apply Decidable.byContradiction
+                              intro hk
+                              exact hsrcg ⟨(ctype_source_iff _).mpr hos, hk⟩
+                          have hmul : 1 < (s.preds t).length → kindOfC c = .pmux := by
+                            intro hm
+                            have := hw.multi (t, old) holdm hm
+                            apply Decidable.byContradiction
+                            intro hk
+                            exact hmuxg ⟨(ctype_pmux_iff _).mpr this, hk⟩
+                          -- no second PMux
+                          have hmux : kindOfC c = .pmux → ∀ p ∈ s.comps, p.1 ≠ t → kindOfC p.2 ≠ .pmux := by
+                            intro hk p hp hpt hpk
+                            by_cases hold_mux : kindOfC old = .pmux
+                            · have := filter_length_le_one_inv hw.one_mux p hp (t, old) holdm (by simpa using hpk)
+                                (by simpa using hold_mux)
+                              exact hpt (by rw [this])
+                            · apply hone
+                              refine ⟨(ctype_pmux_iff _).mpr hk, fun h => hold_mux ((ctype_pmux_iff _).mp h), ?_⟩
+                              exact List.any_eq_true.mpr ⟨p, hp, by simpa using hpk⟩
+                          -- the registry deletions succeed
+                          rw [if_neg (by simpa [Sys.setPayload] using hk1)]
+                          rw [if_neg (by simpa [Sys.setPayload] using hk2)]
+                          rw [if_neg (by simpa [Sys.setPayload] using hk3)]
+                          simp only
+                          apply wfr_replace hs hw (t := t) (old := old) (c := c) (x := x) (r' := Sys.effRail c r) holdm hxn
+                          · rfl
+                          · rfl
+                          · rfl
+                          · show dset (ddel s.nodes x) (nameOfC c) t = _
+                            rw [dset_of_not_mem hcf0]
+                          · show dkeys (dset (ddel s.phaseConf x) (nameOfC c) _) = _
+                            rw [dset_of_not_mem hcf1]; simp
+                          · show dkeys (dset (ddel s.groups x) (nameOfC c) _) = _
+                            rw [dset_of_not_mem hcf2]; simp
+                          · show dset (ddel s.rails x) (nameOfC c) _ = _
+                            rw [dset_of_not_mem hcf3]
+                          · exact hnm
+                          · exact hrl
+                          · exact hsrc
+                          · exact hmul
+                          · exact hmux
+                          · exact kidsScan_none hkids
 
 /-! ### set_sys_phases, set_comp_phases -/
 
@@ -581,11 +635,10 @@ theorem wfr_setSysPhases {s : Sys π ν} (hw : WFr s) (ph : List (String × ν))
     · exact hw
     · exact wfr_congr hw rfl rfl rfl rfl rfl (fun _ => Iff.rfl) (fun _ => Iff.rfl)
 
-theorem wfr_setCompPhases {s : Sys π ν} (hw : WFr s) (x : String) (pc : PConfArg ν) (hsafe : s.byName x) :
+theorem wfr_setCompPhases {s : Sys π ν} (hw : WFr s) (x : String) (pc : PConfArg ν) :
     WFr (s.setCompPhases x pc).1 := by
   unfold Sys.setCompPhases Sys.fail
   split
-  · exact hw
   · exact hw
   · next cidx hc =>
     split
@@ -594,10 +647,7 @@ theorem wfr_setCompPhases {s : Sys π ν} (hw : WFr s) (x : String) (pc : PConfA
       · exact hw
       · split
         · exact hw
-        · have hx : x ∈ dkeys s.nodes := by
-            rcases hsafe with h | h
-            · exact h
-            · rw [h] at hc; simp at hc
+        · have hx : x ∈ dkeys s.nodes := dget_some_key hc
           have hk : x ∈ dkeys s.phaseConf := (hw.pconf_keys x).mpr ((names_eq_nodes_keys hw x).mp hx)
           refine wfr_congr hw rfl rfl rfl rfl rfl (fun _ => Iff.rfl) ?_
           intro y
